@@ -173,9 +173,12 @@ func runC05(c *Ctx) {
 					if call, ok := rv.V.(*ssa.Call); ok && staticCallee(&call.Call) == Len {
 						return "LEN"
 					}
-					if ex, ok := rv.V.(*ssa.Extract); ok && ex.Index == 2 {
-						if call, ok := ex.Tuple.(*ssa.Call); ok && staticCallee(&call.Call) == next {
-							return "VALID"
+					// the boolean result of next(), wherever it sits in the result list
+					if ex, ok := rv.V.(*ssa.Extract); ok {
+						if bt, isB := ex.Type().Underlying().(*types.Basic); isB && bt.Kind() == types.Bool {
+							if call, ok := ex.Tuple.(*ssa.Call); ok && staticCallee(&call.Call) == next {
+								return "VALID"
+							}
 						}
 					}
 					return ""
